@@ -811,6 +811,10 @@ func runR20_1(c *Ctx, r *R) {
 }
 
 func runR20_3(c *Ctx, r *R) {
+	if host := listenerHost(c); host != nil && host.Name() == "OnClosed" {
+		runR20_3Inline(c, r, host)
+		return
+	}
 	// (a) addClosed: check-insert-recheck
 	if f := r.Need("mpx", "conn.addClosed"); f != nil {
 		var set ssa.Instruction
